@@ -153,6 +153,45 @@ def ma_contracts(P):
         P.contract(MA + "._reorganize_dicts", variant=f"E{E}", params={"self": ma_self, "args": argsE}, requires=[], frame_fields=False,
                    ensures=[f"reorg_post_{E}(result, args)"], replay="c09:ma_buffer")
 
+        # dict / tuple observations: the first field of every agent is a dict (two sub-spaces) or a tuple (two parts) of per-env lists
+        for kind in ("dict", "tuple"):
+            def argsK(ex, st, l, E=E, kind=kind):
+                def obs(a):
+                    parts = {k: [z3.Const(f"vec.obs.{a}.{k}.{i}", Val) for i in range(E)] for k in ("x", "y")}
+                    return parts if kind == "dict" else (parts["x"], parts["y"])
+                return tuple(({a: obs(a) for a in AGENTS} if fi == 0 else {a: [z3.Const(f"vec.{f}.{a}.{i}", Val) for i in range(E)] for a in AGENTS})
+                             for fi, f in enumerate(FIELDS))
+
+            def reorg_post_k(result, args, E=E, kind=kind):
+                if not (isinstance(result, tuple) and len(result) == len(FIELDS)):
+                    return z3.BoolVal(False)
+                out = []
+                for j in range(len(FIELDS)):
+                    if not (isinstance(result[j], list) and len(result[j]) == E):          # one entry per ENVIRONMENT
+                        return z3.BoolVal(False)
+                    for i in range(E):
+                        d = result[j][i]
+                        if not (isinstance(d, dict) and set(d) == set(AGENTS)):
+                            return z3.BoolVal(False)
+                        for a in AGENTS:
+                            if j == 0:
+                                got = d[a]
+                                src = args[0][a]
+                                if kind == "dict":
+                                    if not (isinstance(got, dict) and set(got) == {"x", "y"}):
+                                        return z3.BoolVal(False)
+                                    out += [z3ify(got[k]) == src[k][i] for k in ("x", "y")]
+                                else:
+                                    if not (isinstance(got, tuple) and len(got) == 2):
+                                        return z3.BoolVal(False)
+                                    out += [z3ify(got[p]) == src[p][i] for p in range(2)]
+                            else:
+                                out.append(z3ify(d[a]) == args[j][a][i])
+                return z3.And(*out)
+            P.specns[f"reorg_post_{kind}_{E}"] = reorg_post_k
+            P.contract(MA + "._reorganize_dicts", variant=f"{kind}-obs-E{E}", params={"self": ma_self, "args": argsK}, requires=[], frame_fields=False,
+                       ensures=[f"reorg_post_{kind}_{E}(result, args)"], replay="c09:ma_buffer")
+
         def hist_after(args, E=E):
             h = H
             for i in range(E):
